@@ -5,6 +5,7 @@ import (
 	"testing"
 	"time"
 
+	"verif/harness/internal/fault"
 	"verif/harness/internal/model"
 	"verif/harness/internal/vcore"
 )
@@ -17,11 +18,13 @@ type enumC10 struct {
 	Point  string `json:"point"`
 	Held   bool   `json:"held"`
 	Peer   bool   `json:"peer"` // the other instance has published before (so that merges happen too)
+	// StoreFaults: that many Store calls of instance 0 fail (fewer than the retry budget) before one gets through
+	StoreFaults int `json:"store_faults,omitempty"`
 }
 
 func TestC10LoopEnum(t *testing.T) {
 	vcore.RunEnum(t, vcore.Config{Property: "C10", Inflight: true,
-		Rule: "fault enumeration over two real sync loops: instance 0 commits, runs to EVERY yield point (13) of its loop, commits once more there ({at the point, or with the transaction still open when the loop goes on}), with or without an earlier snapshot of instance 1 to merge; then the write-free phase and all clauses of TestC10Loop (at most an in-flight and a pending upload, none from the third round on, uploads <= application commits, every upload's image transaction preceded by an application commit newer than the previous upload's image, identical content); non-trivial = the second commit fell inside the iteration that uploads the first (send.* / sync.before-info / sync.before-send)"},
+		Rule: "fault enumeration over two real sync loops: instance 0 commits, runs to EVERY yield point (13) of its loop, commits once more there ({at the point, or with the transaction still open when the loop goes on}), with or without an earlier snapshot of instance 1 to merge, or with the first one or two Store calls of the upload failing (retry budget 4); then the write-free phase and all clauses of TestC10Loop (at most an in-flight and a pending upload, none from the third round on, uploads <= application commits, every upload's image transaction preceded by an application commit newer than the previous upload's image, identical content); non-trivial = the second commit fell inside the iteration that uploads the first (send.* / sync.before-info / sync.before-send)"},
 		func(yield func(enumC10) bool) {
 			for _, native := range []bool{true, false} {
 				for _, p := range loopYieldPoints[:nMainPoints] {
@@ -33,6 +36,11 @@ func TestC10LoopEnum(t *testing.T) {
 							if !yield(enumC10{Native: native, Point: p, Held: held, Peer: peer}) {
 								return
 							}
+						}
+					}
+					for _, sf := range []int{1, 2} {
+						if !yield(enumC10{Native: native, Point: p, StoreFaults: sf}) {
+							return
 						}
 					}
 				}
@@ -48,6 +56,13 @@ func TestC10LoopEnum(t *testing.T) {
 					C05Op{Kind: "app", Inst: 1, Changes: put(2, "peer", 10)},
 					C05Op{Kind: "step", Inst: 1, Steps: 40, Until: "sync.before-sleep"},
 					C05Op{Kind: "settle"})
+			}
+			if e.StoreFaults > 0 {
+				var fs []string
+				for i := 0; i < e.StoreFaults; i++ {
+					fs = append(fs, fault.Fail)
+				}
+				c.Ops = append(c.Ops, C05Op{Kind: "fault", Inst: 0, FKind: "store", Faults: fs})
 			}
 			c.Ops = append(c.Ops,
 				C05Op{Kind: "step", Inst: 0, Steps: 40, Until: "sync.before-sleep"},
